@@ -72,6 +72,9 @@ const IRI_TOKENS: &[(&str, &str)] = &[
     ("iri2", "file:C:\\temp\\notes\\backup.txt"),
     ("iri3", "http://e.org/\u{1}x\r"),
     ("iri4", "https://example.org/plain"),
+    // plain strings whose only special characters are the first / the last C0 control character
+    ("ctl1", "a\u{1f}b"),
+    ("ctl2", "\u{1}"),
 ];
 
 impl IdStyle {
